@@ -126,3 +126,75 @@ var ghostBigOf func(b []byte) int
 //@     invariant@A forall(0, len(available), func(p int) bool { return forall(0, p, func(q int) bool { return available[q].ShardID < available[p].ShardID }) })
 //@     invariant@B forall(0, idx_, func(j int) bool { return availShard(st, seqat2(coll_, j)) ==> exists(0, len(available), len(available)-1, func(p int) bool { return available[p].ShardID == seqat(coll_, j) }) })
 //@     invariant@B forall(func(k string) bool { return isKnown(st, k) ==> exists(0, seqlen(coll_), func(j int) bool { return seqat(coll_, j) == k }) })
+
+// AssignedSplits: one entry per assigned id, in id order, holding the tracked shard of that id.
+//@ func SplitTracker.AssignedSplits
+//@   property C16
+//@   modifies nothing
+//@   ensures@A forall(0, len(result), func(p int) bool { return exists(func(k string) bool { return has(st.assignedSplits, k) && (isKnown(st, k) ==> same(result[p], st.knownSplits.m[k])) }) })
+//@   ensures@B forall(func(k string) bool { return has(st.assignedSplits, k) && isKnown(st, k) ==> exists(0, len(result), func(p int) bool { return result[p].ShardID == k }) })
+//@   loop 0:
+//@     invariant len(assigned) == idx_ && forall(0, idx_, func(p int) bool { return isKnown(st, coll_[p]) ==> same(assigned[p], st.knownSplits.m[coll_[p]]) })
+//@     invariant forall(0, len(coll_), func(p int) bool { return has(st.assignedSplits, coll_[p]) })
+//@     invariant@B forall(func(k string) bool { return has(st.assignedSplits, k) ==> exists(0, len(coll_), func(p int) bool { return coll_[p] == k }) })
+
+// uniformlyAssignShard: big-number arithmetic is library code; the clamp keeps the index below
+// the runner count, that it is not negative is assumed.
+//@ func uniformlyAssignShard
+//@   property C16
+//@   trusted
+//@   pure
+//@   modifies nothing
+//@   ensures 0 <= result && (numRunners >= 1 ==> result < numRunners)
+
+// assignShards hands every shard of the list to the source runner its hash key range selects (A) and
+// assigns nothing else (B: every assignment entry is a shard of the list, carrying the cursor
+// recorded for it), announces the assignments and only then records the shards as assigned.
+//@ define runnerOf(s, sh) := s.sourceRunnerIDs[uniformlyAssignShard(sh.HashKeyRange, len(s.sourceRunnerIDs))]
+//@ define hasSplit(m, r, id) := exists(0, len(m[r]), len(m[r])-1, func(pp_ int) bool { return m[r][pp_] != nil && m[r][pp_].SplitId == id })
+//@ func SourceSplitter.assignShards
+//@   property C16
+//@   nosafety
+//@   requires s.splitTracker != nil && len(s.sourceRunnerIDs) >= 1
+//@   order TrackAssigned after AssignSplits
+//@   atcall TrackAssigned: same(arg0, shards)
+//@   atcall@A AssignSplits: forall(0, len(shards), func(j int) bool { return hasSplit(arg0, runnerOf(s, shards[j]), shards[j].ShardID) })
+//@   atcall@B AssignSplits: forall(func(r string) bool { return forall(0, len(arg0[r]), func(p int) bool {
+//@          return arg0[r][p] != nil && exists(0, len(shards), func(j int) bool { return arg0[r][p].SplitId == shards[j].ShardID && string(arg0[r][p].Cursor) == s.cursors[shards[j].ShardID] }) }) })
+//@   loop 0:
+//@     invariant@A forall(0, idx_, func(j int) bool { return hasSplit(assignments, runnerOf(s, shards[j]), shards[j].ShardID) })
+//@     invariant@B forall(func(r string) bool { return forall(0, len(assignments[r]), func(p int) bool {
+//@          return assignments[r][p] != nil && exists(0, idx_, idx_-1, func(j int) bool { return assignments[r][p].SplitId == shards[j].ShardID && string(assignments[r][p].Cursor) == s.cursors[shards[j].ShardID] }) }) })
+
+// Checkpoint: the splitter state lists the tracked shard of every assigned id (A) and, to be
+// restorable, must COVER every tracked shard: a shard that is tracked but not assigned (a child
+// waiting for its parent) is found again after a restore only if its id lies after the last
+// assigned id, where discovery resumes (B). B does not hold - see known_findings.json.
+//@ func SourceSplitter.Checkpoint
+//@   property C16
+//@   nosafety
+//@   requires s.splitTracker != nil
+//@   ensures forall(func(k string) bool { return isKnown(s.splitTracker, k) ==> has(s.splitTracker.assignedSplits, k) || k > s.splitTracker.LastAssignedSplitID })
+//@   loop 0:
+//@     invariant len(pbShards) == len(splits) && forall(0, idx_, func(i int) bool { return pbShards[i] != nil && pbShards[i].ShardId == splits[i].ShardID && same(pbShards[i].ParentShardIds, splits[i].ParentIDs) })
+
+// Start (restore path): the checkpointed last-assigned id is where discovery resumes, and no
+// shard is handed out twice: beyond the restored shards only shards with new ids are pending.
+//@ func SourceSplitter.Start
+//@   property C16
+//@   nosafety
+//@   atcall LoadSplits: arg1 == splitterState.LastAssignedShardId && same(arg0, pendingShards)
+//@   atcall discoverShards: arg1 == s.splitTracker.LastAssignedSplitID
+//@   order discoverShards after LoadSplits
+//@   order assignShards after discoverShards
+//@   atcall assignShards: forall(len(splitterState.AssignedShards), len(arg1), func(j int) bool { return forall(0, j, func(i int) bool { return arg1[i].ShardID != arg1[j].ShardID }) })
+//@   loop 0:
+//@     invariant len(pendingShards) == len(splitterState.AssignedShards)
+//@   loop 2:
+//@     invariant len(pendingShards) == len(splitterState.AssignedShards) && forall(0, idx_, func(i int) bool { return has(restored, pendingShards[i].ShardID) })
+//@   loop 3:
+//@     invariant len(pendingShards) >= len(splitterState.AssignedShards) && forall(0, len(splitterState.AssignedShards), func(i int) bool { return has(restored, pendingShards[i].ShardID) })
+//@     invariant forall(len(splitterState.AssignedShards), len(pendingShards), func(j int) bool { return !has(restored, pendingShards[j].ShardID) &&
+//@               exists(0, idx_, idx_-1, func(a int) bool { return coll_[a].ShardID == pendingShards[j].ShardID }) &&
+//@               forall(0, j, func(i int) bool { return pendingShards[i].ShardID != pendingShards[j].ShardID }) })
+//@     invariant forall(0, len(coll_), func(a int) bool { return forall(0, a, func(b int) bool { return coll_[b].ShardID < coll_[a].ShardID }) })
